@@ -36,11 +36,14 @@ class Ctx:
         self.methods = methods or {}  # method name -> coq function name (state -> args -> state)
         self.objs = objs or {}        # object kind -> {method: coq function}
         self.locals = {}
+        self.num = 'N'                # 'Z': integer expressions are translated over Z (Python ints incl. negatives)
 
 
 BINOPS = {ast.Add: 'N.add', ast.Sub: 'N.sub', ast.Mult: 'N.mul', ast.FloorDiv: 'N.div', ast.Mod: 'N.modulo',
           ast.BitAnd: 'N.land', ast.BitOr: 'N.lor', ast.BitXor: 'N.lxor', ast.LShift: 'N.shiftl', ast.RShift: 'N.shiftr'}
 CMPOPS = {ast.Eq: 'N.eqb', ast.Lt: 'N.ltb', ast.LtE: 'N.leb'}
+ZBINOPS = {ast.Add: 'Z.add', ast.Sub: 'Z.sub', ast.Mult: 'Z.mul', ast.FloorDiv: 'Z.div', ast.Mod: 'Z.modulo',
+           ast.BitAnd: 'Z.land', ast.BitOr: 'Z.lor', ast.BitXor: 'Z.lxor', ast.LShift: 'Z.shiftl', ast.RShift: 'Z.shiftr'}
 
 
 def dotted(node):
@@ -57,6 +60,8 @@ def expr(ctx, e, want='N'):
     if isinstance(e, ast.Constant):
         if isinstance(e.value, bool):
             return 'true' if e.value else 'false'
+        if isinstance(e.value, int) and getattr(ctx, 'num', 'N') == 'Z':
+            return f'({e.value})%Z'
         if isinstance(e.value, int) and e.value >= 0:
             return f'{e.value}'
         if isinstance(e.value, str) and len(e.value) == 1 and want == 'N':
@@ -78,7 +83,8 @@ def expr(ctx, e, want='N'):
                 err(e, f'{d}: no such enum member (AttributeError at run time)')
         err(e, f'name {d} not supported')
     if isinstance(e, ast.BinOp) and type(e.op) in BINOPS:
-        return f'({BINOPS[type(e.op)]} {expr(ctx, e.left)} {expr(ctx, e.right)})'
+        ops = ZBINOPS if getattr(ctx, 'num', 'N') == 'Z' else BINOPS
+        return f'({ops[type(e.op)]} {expr(ctx, e.left)} {expr(ctx, e.right)})'
     if isinstance(e, ast.Compare) and len(e.ops) == 1:
         op, l, r = e.ops[0], e.left, e.comparators[0]
         kind = 'N'
@@ -533,7 +539,74 @@ def emit_frame_(L):
     L.append('')
 
 
+def emit_cfgkeys_(L):
+    """CfgKeyData static helpers: _bits_from_key, _group_from_key, _item_from_key, _bytes_for_size, _build_header."""
+    from ubxlib.cfgkeys import CfgKeyData
+    sfb, bfs, bfb = CfgKeyData.SIZE_FROM_BITS, CfgKeyData.BITS_FROM_SIZE, CfgKeyData.BYTES_FROM_BITS
+    if not (isinstance(sfb, dict) and isinstance(bfs, list) and isinstance(bfb, dict)):
+        raise TranslateError('CfgKeyData size tables changed shape')
+    L.append('Definition gk_size_from_bits : list (Z * Z) := [' + '; '.join(f'(({k})%Z, ({v})%Z)' for k, v in sfb.items()) + '].')
+    L.append('Definition gk_bits_from_size : list Z := [' + '; '.join(f'({v})%Z' for v in bfs) + '].')
+    L.append('Definition gk_bytes_from_bits : list (Z * Z) := [' + '; '.join(f'(({k})%Z, ({v})%Z)' for k, v in bfb.items()) + '].')
+    L.append('Fixpoint gk_assoc (t : list (Z * Z)) (k : Z) : option Z := match t with [] => None | (a, b) :: r => if Z.eqb a k then Some b else gk_assoc r k end.')
+    ctx = Ctx('CfgKeyData', {})
+    ctx.num = 'Z'
+
+    def simple(meth, tbl=None):
+        fn = method_ast(CfgKeyData, meth)
+        args = [a.arg for a in fn.args.args]
+        ctx.locals = {a: a for a in args}
+        body = [b for b in fn.body if not is_logging(b)]
+        return fn, args, body
+    # _group_from_key / _item_from_key: `return <expr>`
+    for meth in ('_group_from_key', '_item_from_key'):
+        fn, args, body = simple(meth)
+        if not (len(args) == 1 and len(body) == 1 and isinstance(body[0], ast.Return)):
+            raise TranslateError(f'CfgKeyData.{meth}: expected a single return')
+        L.append(f'Definition gk{meth} ({args[0]} : Z) : Z := {expr(ctx, body[0].value)}.')
+    # _bits_from_key: size = <expr>; return CfgKeyData.BITS_FROM_SIZE[size]
+    fn, args, body = simple('_bits_from_key')
+    okb = (len(args) == 1 and len(body) == 2 and isinstance(body[0], ast.Assign) and isinstance(body[0].targets[0], ast.Name)
+           and isinstance(body[1], ast.Return) and isinstance(body[1].value, ast.Subscript)
+           and dotted(body[1].value.value) == 'CfgKeyData.BITS_FROM_SIZE' and dotted(body[1].value.slice) == body[0].targets[0].id)
+    if not okb:
+        raise TranslateError('CfgKeyData._bits_from_key: expected `size = <expr>; return CfgKeyData.BITS_FROM_SIZE[size]`')
+    L.append(f'Definition gk_bits_from_key ({args[0]} : Z) : option Z := nth_error gk_bits_from_size (Z.to_nat {expr(ctx, body[0].value)}).   (* None = IndexError *)')
+    # _bytes_for_size: if bits in TABLE: return TABLE[bits] else: raise ValueError
+    fn, args, body = simple('_bytes_for_size')
+    okc = (len(args) == 1 and len(body) == 1 and isinstance(body[0], ast.If) and isinstance(body[0].test, ast.Compare)
+           and isinstance(body[0].test.ops[0], ast.In) and dotted(body[0].test.comparators[0]) == 'CfgKeyData.BYTES_FROM_BITS'
+           and len(body[0].body) == 1 and isinstance(body[0].body[0], ast.Return) and isinstance(body[0].body[0].value, ast.Subscript)
+           and dotted(body[0].body[0].value.value) == 'CfgKeyData.BYTES_FROM_BITS'
+           and len(body[0].orelse) == 1 and isinstance(body[0].orelse[0], ast.Raise) and dotted(body[0].orelse[0].exc) == 'ValueError')
+    if not okc:
+        raise TranslateError('CfgKeyData._bytes_for_size: shape not recognised')
+    L.append(f'Definition gk_bytes_for_size ({args[0]} : Z) : option Z := gk_assoc gk_bytes_from_bits {args[0]}.   (* None = ValueError *)')
+    # _build_header: try: size = SIZE_FROM_BITS[bits] except KeyError: raise ValueError; header = ...; header |= ...; return header
+    fn, args, body = simple('_build_header')
+    okd = (len(args) == 3 and len(body) >= 3 and isinstance(body[0], ast.Try) and len(body[0].body) == 1 and isinstance(body[0].body[0], ast.Assign)
+           and isinstance(body[0].body[0].value, ast.Subscript) and dotted(body[0].body[0].value.value) == 'CfgKeyData.SIZE_FROM_BITS'
+           and dotted(body[0].body[0].value.slice) == args[2] and len(body[0].handlers) == 1 and dotted(body[0].handlers[0].type) == 'KeyError'
+           and len(body[0].handlers[0].body) == 1 and isinstance(body[0].handlers[0].body[0], ast.Raise)
+           and dotted(body[0].handlers[0].body[0].exc) == 'ValueError' and isinstance(body[-1], ast.Return))
+    if not okd:
+        raise TranslateError('CfgKeyData._build_header: shape not recognised')
+    szname = body[0].body[0].targets[0].id
+    ctx.locals[szname] = 'size__'
+    for st in body[1:-1]:
+        if isinstance(st, ast.Assign) and isinstance(st.targets[0], ast.Name):
+            ctx.locals[st.targets[0].id] = expr(ctx, st.value)
+        elif isinstance(st, ast.AugAssign) and isinstance(st.target, ast.Name) and type(st.op) in ZBINOPS:
+            ctx.locals[st.target.id] = f'({ZBINOPS[type(st.op)]} {ctx.locals[st.target.id]} {expr(ctx, st.value)})'
+        else:
+            raise TranslateError('CfgKeyData._build_header: statement not supported')
+    L.append(f'Definition gk_build_header ({args[0]} {args[1]} {args[2]} : Z) : option Z :=   (* None = ValueError *)\n  match gk_assoc gk_size_from_bits {args[2]} with Some size__ => Some {expr(ctx, body[-1].value)} | None => None end.')
+    L.append('')
+
+
 def finish_(path, L, parts):
+    if 'cfgkeys' in parts:
+        emit_cfgkeys_(L)
     if 'frame' in parts:
         emit_frame_(L)
     if 'nmea' in parts:
